@@ -233,7 +233,7 @@ class Harness:
             args = (mpath,)
         else:
             target = T.TARGETS[case['ending']]
-            args = (mpath, 99 if case.get('us_none') else case.get('loop', 2))
+            args = (mpath, 99 if case.get('us_none') else 98 if case.get('us_zero') else case.get('loop', 2))
         st = None
         ffault = fault_is_frontend = case.get('fault') == 'fpause'
         if ffault:
@@ -244,8 +244,16 @@ class Harness:
         if kind == 'thread':
             st = vfagent.install(plan)
         t0 = time.time()
+        ctx = None
         try:
-            w = cls(target, args=args, **kw)
+            if case.get('in_context') and kind == 'remote':
+                # the worker is created within a remote context: target and arguments come from the context,
+                # everything else (init_state included) from the worker itself
+                from pyworkers.remote_context import RemoteContext
+                ctx = RemoteContext('c16-%d-%d' % (os.getpid(), self.case_no), host=kw['host'], target=target, args=args)
+                w = cls(None, context=ctx.context_id, **kw)
+            else:
+                w = cls(target, args=args, **kw)
         finally:
             if kind == 'thread' or ffault:
                 sys.settrace(None)          # keep tracing new threads only (threading.settrace stays)
@@ -408,6 +416,13 @@ class Harness:
             except BaseException as e:  # noqa
                 linger = 'na'
         obs['linger'] = linger
+        if case.get('linger_term') and linger != 'na':
+            # the caller does not wait for the lingering child: it is force-terminated - after it has reported
+            try:
+                r = w.terminate(timeout=0.3, force=True)
+                term_ret = 'T' if r is True else 'F' if r is False else 'other'
+            except BaseException as e:  # noqa
+                term_ret = 'raised:' + type(e).__name__
         # let it end
         dead = False
         polled = case.get('observe') == 'poll'
@@ -485,6 +500,11 @@ class Harness:
             obs['os_alive'] = 'T' if _pid_alive(pid) else 'F'
         else:
             obs['os_alive'] = 'T' if (hasattr(w, '_child') and w._child.is_alive()) else 'F'
+        if ctx is not None:
+            try:
+                ctx.close()
+            except BaseException:  # noqa
+                pass
         where = (ev or {}).get('fired') or report
         rec = {'scn': _scn(case, where, marks, ev), 'obs': obs}
         rec['events_total'] = (ev or {}).get('count', 0)
